@@ -247,6 +247,12 @@ def _idempotent_update(ctx, gf, reach, g):
                 ok = isinstance(v, ast.Call) and isinstance(v.func, ast.Attribute) and v.func.attr == "union" \
                     and is_name(v.func.value, g[1]) and len(v.args) == 1 and isinstance(v.args[0], ast.Name) \
                     and not gf.writers.get((g[0], v.args[0].id)) and not gf.mutators.get((g[0], v.args[0].id))
+                # the operator spelling of the same update:  g = g | <configuration constant>
+                if not ok and isinstance(v, ast.BinOp) and isinstance(v.op, ast.BitOr):
+                    sides = [v.left, v.right]
+                    other = [x for x in sides if not is_name(x, g[1])]
+                    ok = any(is_name(x, g[1]) for x in sides) and len(other) == 1 and isinstance(other[0], ast.Name) \
+                        and not gf.writers.get((g[0], other[0].id)) and not gf.mutators.get((g[0], other[0].id))
                 if not ok:
                     return False
     return bool(ws) and seen > 0
@@ -382,6 +388,21 @@ def rule_c(ctx, out):
                             p = n._parent
                             if isinstance(getattr(p, "ctx", None), ast.Store) or (isinstance(p, ast.Attribute) and p.attr in ("append", "add", "update", "pop", "clear")):
                                 muts.append((f, n))
+                # ... or through an instance: self.<name> mutated in place by a method while __init__ never gives the instance its own
+                init = ci.methods.get("__init__")
+                own = init is not None and any(isinstance(n, ast.Assign) and any(isinstance(t, ast.Attribute) and t.attr == name and is_name(t.value, "self")
+                                                                              for t in n.targets) for n in own_nodes(init.node))
+                if not own:
+                    from ..core.absint import MUTATORS
+                    for m_ in ci.methods.values():
+                        for n in own_nodes(m_.node):
+                            if isinstance(n, ast.Attribute) and n.attr == name and is_name(n.value, "self"):
+                                p = getattr(n, "_parent", None)
+                                in_place = (isinstance(p, ast.Attribute) and p.attr in MUTATORS and isinstance(getattr(p, "_parent", None), ast.Call)) or \
+                                    (isinstance(p, ast.Subscript) and isinstance(p.ctx, (ast.Store, ast.Del))) or \
+                                    (isinstance(p, ast.AugAssign) and p.target is n)
+                                if in_place:
+                                    muts.append((m_, n))
                 if muts:
                     out.bad(f"class-level-state:{ci.qual}.{name}", f"class attribute {ci.name}.{name} is a container mutated at run time: shared by all blocks",
                             where(muts[0][0], muts[0][1]))
